@@ -23,7 +23,7 @@ import translate_tracepush, translate_callgraph, translate_tailpos
 ID = 'C10'
 COMPONENTS = ['tracelen']
 THEOREMS = ['C10_handler_words_balanced', 'C10_handler_words_balanced_sound', 'C10_handler_gain_bounded',
-            'C10_eval_callgraph_acyclic', 'C10_tail_positions_spec', 'C10_tracelen_invariant', 'C10_dec_no_underflow',
+            'C10_eval_callgraph_acyclic', 'C10_tail_positions_spec', 'C10_core_thunk_forces_framed', 'C10_tracelen_invariant', 'C10_dec_no_underflow',
             'C10_len_zero_at_end', 'C10_get_stack_trace_pop_ok', 'C10_len_never_exceeds',
             'C10_overflow_trace_exceeds_limit', 'C10_tracelen_nonvacuous',
             'C10_limit_monotone', 'C10_limit_monotone_outcome', 'C10_depth_never_exceeds',
@@ -475,8 +475,14 @@ def check_tracelen_model(run, model_exe, rng, tier):
 
 # ================================================================ implementation-only sweep
 
+# frames per level of depth, calibrated on the unchanged tree by bisection at depths 30 and 90 (notes/C10.md): every
+# depthful family needs exactly ratio*d + b frames with b in 0..6
+RATIO2 = {'fn-accumulator-thunks', 'inh-super-method'}
+
+
 def fam(name, src, expect, depthful=True, cyc=None, infinite=False, flat=False):
-    return {'name': name, 'src': src, 'expect': expect, 'depthful': depthful, 'cycle': cyc, 'infinite': infinite, 'flat': flat}
+    return {'name': name, 'src': src, 'expect': expect, 'depthful': depthful, 'cycle': cyc, 'infinite': infinite, 'flat': flat,
+            'ratio': 2 if name in RATIO2 else 1, 'hi': None}
 
 
 def nested_arr_text(d):
@@ -553,7 +559,50 @@ def position_family(pos, tailstrict, d, endless=False):
     f = fam('pos-%s%s' % (name, '-tailstrict' if tailstrict else ''), src, exp(d), depthful=True, infinite=endless)
     f['genuine_tail'] = tail and tailstrict
     f['positional'] = True
+    f['hi'] = (3, 12)      # not calibrated per position: between d and 3d+12
     return f
+
+
+
+def data_families(d):
+    """DATA-shaped depth: the nesting comes from a structure of depth d built by a fold (inheritance layers, thunk
+    chains through fields / elements, nested values walked by comparison, conversion, manifestation, builtins)"""
+    F = []
+    r = 'std.range(1, %d)' % d
+    F.append(fam('inh-plus-number', 'std.foldl(function(acc, i) acc + { a+: 1 }, %s, { a: 0 }).a' % r, '%d' % d))
+    F.append(fam('inh-plus-array', 'std.length(std.foldl(function(acc, i) acc + { a+: [i] }, %s, { a: [] }).a)' % r, '%d' % d))
+    F.append(fam('inh-plus-string', 'std.length(std.foldl(function(acc, i) acc + { a+: "x" }, %s, { a: "" }).a)' % r, '%d' % d))
+    F.append(fam('inh-plus-object', 'std.length(std.objectFields(std.foldl(function(acc, i) acc + { a+: { ["k%%d" %% i]: i } }, %s, { a: {} }).a))' % r, '%d' % d))
+    F.append(fam('inh-plus-hidden', 'std.foldl(function(acc, i) acc + { a+:: 1 }, %s, { a:: 0 }).a' % r, '%d' % d))
+    F.append(fam('inh-super-field', 'std.foldl(function(acc, i) acc + { a: super.a + 1 }, %s, { a: 0 }).a' % r, '%d' % d))
+    F.append(fam('inh-super-index', 'std.foldl(function(acc, i) acc + { a: super["a"] + 1 }, %s, { a: 0 }).a' % r, '%d' % d))
+    F.append(fam('inh-super-method', 'std.foldl(function(acc, i) acc + { f(x): super.f(x) + 1 }, %s, { f(x): x }).f(0)' % r, '%d' % d))
+    F.append(fam('inh-self-override', 'std.foldl(function(acc, i) acc + { ["f%%d" %% i]: self["f%%d" %% (i - 1)] + 1 }, %s, { f0: 0 })["f%d"]' % (r, d), '%d' % d))
+    F.append(fam('inh-plus-read-by-self', 'std.foldl(function(acc, i) acc + { a+: 1, b: self.a }, %s, { a: 0, b: 0 }).b' % r, '%d' % d))
+    F.append(fam('inh-in-super', 'std.foldl(function(acc, i) acc + { a: if "a" in super then super.a + 1 else 0 }, %s, { a: 0 }).a' % r, '%d' % d))
+    F.append(fam('chain-array-elems', 'local a = std.makeArray(%d + 1, function(i) if i == 0 then 0 else a[i - 1] + 1); a[%d]' % (d, d), '%d' % d))
+    F.append(fam('chain-object-fields', 'local o = { ["f%%d" %% i]: if i == 0 then 0 else self["f%%d" %% (i - 1)] + 1 for i in std.range(0, %d) }; o["f%d"]' % (d, d), '%d' % d))
+    F.append(fam('chain-foldl-thunks', 'std.foldl(function(acc, i) [acc[0] + 1], %s, [0])[0]' % r, '%d' % d))
+    F.append(fam('chain-foldr-thunks', 'std.foldr(function(i, acc) [acc[0] + 1], %s, [0])[0]' % r, '%d' % d))
+    nest = 'std.foldl(function(a, i) [a], %s, [1])' % r
+    nobj = 'std.foldl(function(a, i) { x: a }, %s, { x: 1 })' % r
+    # these two walk the structure without counting a frame per level (see the open finding endless-data-walk)
+    F.append(fam('walk-flatten-deep', 'std.flattenDeepArray(%s)' % nest, '[1]', depthful=False))
+    F.append(fam('walk-deep-join', 'std.deepJoin(std.foldl(function(a, i) [a], %s, ["s"]))' % r, '"s"', depthful=False))
+    F.append(fam('walk-prune', 'std.length(std.toString(std.prune(%s)))' % nest, '%d' % (2 * d + 3)))
+    F.append(fam('walk-merge-patch', 'std.length(std.manifestJsonMinified(std.mergePatch(%s, %s)))' % (nobj, nobj), '%d' % (6 * d + 7)))
+    F.append(fam('walk-equals-fn', 'std.equals(%s, %s)' % (nest, nest), 'true'))
+    F.append(fam('walk-eq-objects', '%s == %s' % (nobj, nobj), 'true'))
+    F.append(fam('walk-lt-arrays', '%s < std.foldl(function(a, i) [a], %s, [2])' % (nest, r), 'true'))
+    F.append(fam('walk-tostring-obj', 'std.length(std.toString(%s))' % nobj, '%d' % (7 * d + 8)))
+    F.append(fam('walk-manifest-json-ex', 'std.length(std.manifestJsonEx(%s, "")) > 0' % nest, 'true'))
+    F.append(fam('walk-manifest-toml', 'std.length(std.manifestToml(%s)) > 0' % nobj, 'true'))
+    F.append(fam('walk-manifest-yaml-arr', 'std.length(std.manifestYamlDoc(%s)) > 0' % nest, 'true'))
+    F.append(fam('walk-manifest-python-obj', 'std.length(std.manifestPython(%s)) > 0' % nobj, 'true'))
+    F.append(fam('walk-top-manifest-arr', 'std.foldl(function(a, i) [a], %s, [])' % r, nested_arr_text(d + 1)))
+    F.append(fam('walk-assert-equal', 'std.assertEqual(%s, %s)' % (nest, nest), 'true'))
+    F.append(fam('walk-format-s', 'std.length("%%s" %% [%s])' % nobj, '%d' % (7 * d + 8)))
+    return F
 
 
 def cyclic_programs():
@@ -613,6 +662,43 @@ def flat_programs(n):
     return F
 
 
+
+ENDLESS_DATA = [   # walks over the infinite lazy values  a = [a]  /  o = { x: o }: every one must end in StackOverflow
+    ('toString', 'local a = [a]; std.toString(a)'), ('toString-obj', 'local o = { x: o }; std.toString(o)'),
+    ('eq', 'local a = [a]; a == a'), ('eq-obj', 'local o = { x: o }; o == o'), ('lt', 'local a = [a]; a < a'),
+    ('top-manifest', 'local a = [a]; a'), ('top-manifest-obj', 'local o = { x: o }; o'),
+    ('manifestJson', 'local a = [a]; std.manifestJson(a)'), ('manifestJsonEx', 'local o = { x: o }; std.manifestJsonEx(o, " ")'),
+    ('manifestYamlDoc', 'local a = [a]; std.manifestYamlDoc(a)'), ('manifestPython', 'local o = { x: o }; std.manifestPython(o)'),
+    ('manifestToml', 'local o = { x: o }; std.manifestToml(o)'), ('manifestYamlStream', 'local a = [a]; std.manifestYamlStream(a)'),
+    ('equals', 'local a = [a]; std.equals(a, a)'), ('compare', 'local a = [a]; std.__compare(a, a)'),
+    ('assertEqual', 'local a = [a]; std.assertEqual(a, a)'), ('format', 'local a = [a]; "%s" % [a]'),
+    ('concat', 'local a = [a]; "" + a'), ('flattenArrays', 'local a = [a]; std.flattenArrays(a)'),
+    ('flattenDeepArray', 'local a = [a]; std.flattenDeepArray(a)'), ('deepJoin', 'local a = [a]; std.deepJoin(a)'),
+    ('prune', 'local a = [a]; std.prune(a)'), ('prune-obj', 'local o = { x: o }; std.prune(o)'),
+    ('mergePatch', 'local o = { x: o }; std.mergePatch(o, o)'), ('sort', 'local a = [a, a]; std.sort(a)'),
+    ('set', 'local a = [a, a]; std.set(a)'), ('member', 'local a = [a]; std.member(a, a)'),
+    ('count', 'local a = [a]; std.count(a, a)'), ('find', 'local a = [a]; std.find(a, a)'),
+    ('contains', 'local a = [a]; std.contains(a, a)'), ('objectValuesDeep', 'local o = { x: o }; std.toString(std.objectValues(o))'),
+]
+
+
+def check_endless_data(run, impl_exe):
+    """one process per program, short wall-clock cap and a memory cap: a walk that counts no frame per level never
+    reaches the limit (hang or memory exhaustion instead of StackOverflow)"""
+    cases = [('e%d' % i, 'eval', ['stack=%x' % 50, src_field(src)]) for i, (_, src) in enumerate(ENDLESS_DATA)]
+    res = vlib.run_sharded(impl_exe, [vlib.impl_line(c) for c in cases], timeout=25, shards=len(cases), mem=2 << 30)
+    for (cid, _, _), (name, src) in zip(cases, ENDLESS_DATA):
+        r = res.get(cid, 'NOOUTPUT')
+        run.evaluations += 1
+        ic = parse_impl(r)[0]
+        run.count('endless_data_' + ic)
+        if ic == 'so':
+            run.nontrivial.add(('endless-data', name))
+        else:
+            run.violation('endless-data-walk:' + name, 'walk of an infinite lazy value is not stopped by the frame limit: `%s` under stack=50 answers %s' % (src, r[:50]),
+                          {'kind': 'src', 'name': 'endless-' + name, 'depth': 0, 'stack': 50, 'source': src, 'impl': r[:300]})
+
+
 LIMITS = list(range(1, 65)) + [100, 500, 2000]
 
 
@@ -646,8 +732,8 @@ def check_sweep(run, impl_exe, cli, rng, tier, stops=True):
     depths = [0, 1, 3, 9, 33, 120] if tier == 'quick' else [0, 1, 2, 3, 4, 5, 7, 9, 14, 20, 33, 50, 64, 99, 120, 250, 600]
     jobs = []       # (family dict, d, [limits])
     for d in depths:
-        for f in families(d):
-            lim = set([1, 2, 3, 500, 2000])
+        for f in families(d) + data_families(d):
+            lim = set([1, 2, 3, 500, 2000, d // 3, f['ratio'] * d - 1, f['ratio'] * d + 10])
             # around the plausible thresholds (one to three frames per level), plus random ones
             for a in (1, 2, 3):
                 for b in ((-1, 0, 1, 2, 3, 4, 5, 6) if tier == 'thorough' else (0, 2, 4, 6)):
@@ -742,6 +828,8 @@ def check_sweep(run, impl_exe, cli, rng, tier, stops=True):
                 text = vlib.uncps(itext)
                 if f['expect'] is not None and text != f['expect']:
                     run.violation('wrong-value-under-limit', '%s evaluates to %s, expected %s' % (where, text[:60], f['expect']), replay)
+                if f['depthful'] and not f.get('positional') and s < f['ratio'] * d:
+                    run.violation('limit-not-enforced:' + f['name'], '%s: a structure / recursion of depth %d (%d frame(s) per level on the unchanged tree) is walked under a limit of %d frames' % (where, d, f['ratio'], s), replay)
                 if f.get('positional') and not f['genuine_tail'] and s <= d:
                     run.violation('limit-not-enforced:' + f['name'], '%s: a recursion of depth %d whose recursive call is not a tailstrict tail call succeeds under a limit of %d frames' % (where, d, s), replay)
                 if first_ok is None:
@@ -756,8 +844,8 @@ def check_sweep(run, impl_exe, cli, rng, tier, stops=True):
                     run.violation('tail-call-overflows:' + f['name'], '%s: a tailstrict call in tail position keeps no frame, yet the program overflows' % where, replay)
                 elif f['flat']:
                     run.violation('flat-loop-counts-as-depth:' + f['name'], '%s: a size-%d program of constant nesting depth overflows' % (where, d), replay)
-                elif s >= 3 * d + 12:
-                    run.violation('overflow-far-above-depth', '%s: overflow although the limit exceeds three frames per level' % where, replay)
+                elif s >= (f['hi'][0] * d + f['hi'][1] if f['hi'] else (f['ratio'] * d + 10 if f['depthful'] else 3 * d + 12)):
+                    run.violation('overflow-above-calibrated-bound:' + f['name'], '%s: overflow although the limit exceeds the calibrated need of the shape' % where, replay)
                 run.nontrivial.add((f['name'], d, 'so'))
         if not f['cycle'] and not f['infinite'] and not f['flat']:
             if first_ok is not None and f['depthful'] and not f.get('genuine_tail') and d >= 9 and first_ok[0] < d // 2:
@@ -861,6 +949,7 @@ def check(run):
     cli = vlib.build_cli()
     check_tracelen_model(run, model_exe, rng, run.tier)
     stops = canary(run, impl_exe)
+    check_endless_data(run, impl_exe)
     check_depthsem(run, impl_exe, model_exe, rng, run.tier, stops)
     check_sweep(run, impl_exe, cli, rng, run.tier, stops)
 
